@@ -83,3 +83,17 @@ Definition in_scope (e : expr) : bool :=
   | inl _ => false
   end.
 End Scope.
+
+(* no \K under a look-behind ([b = true]: not under one): the scope of the API-layer theorems *)
+Definition is_behind_k (la : lookkind) : bool := match la with LookBehind | LookBehindNeg => true | _ => false end.
+Fixpoint kokb (b : bool) (e : expr) : bool :=
+  match e with
+  | KeepOut => b
+  | LookAround c la => kokb (b && negb (is_behind_k la)) c
+  | Concat es | Alt es => (fix go (l : list expr) : bool := match l with [] => true | x :: r => kokb b x && go r end) es
+  | Group c | Repeat c _ _ _ | AtomicGroup c => kokb b c
+  | Conditional c y n => kokb b c && kokb b y && kokb b n
+  | _ => true
+  end.
+
+Definition vm_scope_b (bs : N -> bool) (e : expr) : bool := in_scope_all bs e && kokb true e.
